@@ -127,8 +127,9 @@ pub fn check(case: &Case, obs: &mut Obs) -> Result<(), Fail> {
             let from = d.from % n;
             let to = d.to % n_addr;
             if from == to {
-                obs.label("excluded:self-dial");
-                continue;
+                // a node dialing its own address reaches a holder of its own key: the general
+                // clauses apply (returns its own identity, which is then in its connected set)
+                obs.label("self-dial");
             }
             let expect = d.expect.map(|e| identity(e % n_addr));
             let net = nodes[from as usize].net.clone();
@@ -250,7 +251,7 @@ impl Part for Dials {
     type Case = Case;
     fn name(&self) -> &'static str { "dials" }
     fn rule(&self) -> &'static str {
-        "2-5 honest networks plus an optional impostor (raw QUIC endpoint answering at its own address with a replayed certificate of node k, with [own, replayed], or honestly); 1-8 dials connect(addr) / connect_with_peer_id(addr, e) with e equal or unequal to the identity at addr, generated start offsets 0-3 s (many equal => concurrent dials of one address with different expectations; late ones => dials made while already connected), 0-2 High-affinity known-peer entries claiming an identity at an address (background dials naming it, right or wrong), optionally max_concurrent_connections 0-2 on every node, loss bursts bounded to the first seconds; oracle: Ok(p) => p == key holder at addr (== e if given) and p was in the caller's connected set (NewPeer seen or listed at return); identity(addr) != e => Err; pairs with only mismatched dials between them never list, announce or serve each other; a replayed identity never shows up; Err always allowed under loss, with a connection limit, or when dials race; self-dials excluded (counted); non-trivial = a mismatched explicit or background dial, an impostor, or a lost handshake datagram; distinct by case"
+        "2-5 honest networks plus an optional impostor (raw QUIC endpoint answering at its own address with a replayed certificate of node k, with [own, replayed], or honestly); 1-8 dials connect(addr) / connect_with_peer_id(addr, e) with e equal or unequal to the identity at addr, generated start offsets 0-3 s (many equal => concurrent dials of one address with different expectations; late ones => dials made while already connected), 0-2 High-affinity known-peer entries claiming an identity at an address (background dials naming it, right or wrong), optionally max_concurrent_connections 0-2 on every node, loss bursts bounded to the first seconds; oracle: Ok(p) => p == key holder at addr (== e if given) and p was in the caller's connected set (NewPeer seen or listed at return); identity(addr) != e => Err; pairs with only mismatched dials between them never list, announce or serve each other; a replayed identity never shows up; Err always allowed under loss, with a connection limit, or when dials race; self-dials included (the node reached is the dialer itself); non-trivial = a mismatched explicit or background dial, an impostor, or a lost handshake datagram; distinct by case"
     }
     fn strategy(&self, _t: Tier) -> BoxedStrategy<Case> {
         let dial = (0u8..5, 0u8..6, prop::option::weighted(0.7, 0u8..6), prop_oneof![3 => Just(0u16), 2 => 0u16..10, 2 => 10u16..400, 1 => 400u16..3000])
